@@ -32,6 +32,7 @@ points, park until the scheduler creates <dir>/<idx>.go.<k> (or <dir>/free).  Sy
 Notices (no parking): acquiring (before FileLock.acquire), unlocked (after release).
 kill = [point, kind, nth]: at the nth time this process reaches `point` on the quick ("q") or
 data ("d") cache it calls os._exit(77) instead of parking: a writer killed at that instant.
+kill = ["#", "", k]: the same at the k-th sync point of the process, whatever it is.
 """
 
 SCRIPT = r'''
@@ -123,7 +124,9 @@ class Shim:
         class Lock:
             def __init__(self, path, *a, **kw):
                 self.path = path
-                self.inner = shim.real_lock(path, *a, **kw)
+                # the scheduler may park a lock holder for longer than SPSDK's 10 s lock timeout; schedules are about
+                # orderings, not wall-clock, so the wait is unbounded here (a parked holder is always released at the end)
+                self.inner = shim.real_lock(path, timeout=-1)
 
             def __enter__(self):
                 shim.note("acquiring", self.path)
@@ -160,7 +163,8 @@ class Shim:
         kind = self.kind(p) or "-"
         nth = self.seen[(point, kind)] = self.seen.get((point, kind), 0) + 1
         self.k += 1
-        if self.kill and self.kill[0] == point and self.kill[1] == kind and int(self.kill[2]) == nth:
+        if self.kill and ((self.kill[0] == point and self.kill[1] == kind and int(self.kill[2]) == nth)
+                          or (self.kill[0] == "#" and int(self.kill[2]) == self.k)):
             self.log.write("%d K %s %s\n" % (self.k, point, kind))
             self.log.flush()
             os._exit(77)
@@ -169,7 +173,8 @@ class Shim:
         t_end = time.time() + 300
         while not (os.path.exists(go) or os.path.exists(free)):
             if time.time() > t_end:
-                raise RuntimeError("C18 shim: never released at %s" % point)
+                out["shim_stalled"] = point
+                os._exit(78)
             time.sleep(0.001)
 
 
